@@ -129,6 +129,22 @@ fn gen_c01(ctx: &mut Ctx) {
             rt_case(ctx, 0x0102 + k as u16, (k * 16 + j) as u8, &rng.bytes(len), j % 2 == 0, "rejected-line-then-more");
         }
     }
+    // frames decoded from lower-case and mixed-case text (the decoder takes either case) and encoded again: the encoding
+    // is the documented upper-case one, whatever the frame was decoded from
+    for (k, len) in [0usize, 1, 2, 6, 16, 255].into_iter().enumerate() {
+        let d: Vec<u8> = (0..len).map(|i| (0xAB + 0x11 * i + k) as u8).collect();
+        for nl in [false, true] {
+            let up = ref_encode(0xABCD + k as u16, 0xEF - k as u8, &d, nl);
+            let lower: Vec<u8> = up.iter().map(|c| c.to_ascii_lowercase()).collect();
+            let mixed: Vec<u8> = up.iter().enumerate().map(|(i, c)| if i % 3 == 1 { c.to_ascii_lowercase() } else { *c }).collect();
+            for text in [lower, mixed] {
+                let line = format!("DEC {}", hex_of_bytes(&text));
+                let res = ctx.case(line.clone(), true, "decoded-from-lower-case");
+                let want = format!("OK {}.{}.{}", 0xABCD + k as u16, 0xEF - k as u8, hex_of_bytes(&d));
+                ctx.monitor(res == want, "C01-roundtrip-shape", &line[..line.len().min(200)], &res[..res.len().min(200)]);
+            }
+        }
+    }
     // a write whose sink panics and a read whose source panics (each contained on a thread of its own) must not disturb
     // the frames handled afterwards, on this or any other thread
     {
